@@ -883,5 +883,6 @@ func TestC09(t *testing.T) {
 		for _, f := range fails {
 			rec.Fail(rt, f.key, f.what, f.cs)
 		}
+		c09Failed.Store(false) // reached only if every failure was a listed finding
 	})
 }
